@@ -60,3 +60,37 @@ axiom("forall(lambda f, s: LEN(MAPQ(f, s)) == LEN(s), f='U', s='SEQ')")
 axiom("forall(lambda f, s: LEN(FILT(f, s)) <= LEN(s), f='U', s='SEQ')")
 assumption("A-JSON", "json.dumps(x, sort_keys=True) is a function of the value of x and injective on JSON values (equal canonical text <=> equal value)")
 axiom("forall(lambda a, b: implies(JDUMP(a) == JDUMP(b), a == b), a='U', b='U')")
+
+# --- stream combinators of sedpack (their laws are the stream-level reading of
+#     the contracts proved on the real generators in c10 / c15) ---
+ufunc("SHUF", ["STREAM", "int"], "STREAM")       # shuffle_buffer(S, n)
+ufunc("RRS", ["STREAM", "int"], "STREAM")        # round_robin(S, n): S is a stream of iterables
+ufunc("LAZYS", ["U", "STREAM", "int"], "STREAM") # LazyPool(T).imap_unordered(f, S)
+assumption("A-STREAMLAWS", "stream-level laws of SHUF / RRS / LAZYS are the reading, on whole streams, of the postconditions proved for shuffle_buffer, round_robin (C02 token form) and LazyPool.imap_unordered (+ A-LEMMA-CONC): finite input and buffer >= 1 => same multiset; finiteness preserved; a failing input fails the output")
+# finiteness
+axiom("forall(lambda f, s: FIN(MAPS(f, s)) == FIN(s), f='U', s='STREAM')")
+axiom("forall(lambda s: FIN(FLATS(s)) == FIN(s), s='STREAM')")
+axiom("forall(lambda s, n: FIN(SHUF(s, n)) == FIN(s), s='STREAM')")
+axiom("forall(lambda s, n: FIN(RRS(s, n)) == FIN(s), s='STREAM')")
+axiom("forall(lambda f, s, n: FIN(LAZYS(f, s, n)) == FIN(s), f='U', s='STREAM')")
+# multisets: shuffling stages preserve the multiset of a finite stream
+axiom("forall(lambda s, n: implies(FIN(s) and n >= 1, MSS(SHUF(s, n)) == MSS(s)), s='STREAM')")
+axiom("forall(lambda s, n: implies(FIN(s) and n >= 1, MSS(RRS(s, n)) == MSS(FLATS(s))), s='STREAM')")
+axiom("forall(lambda f, s, n: implies(FIN(s) and n >= 1, MSS(LAZYS(f, s, n)) == MSS(MAPS(f, s))), f='U', s='STREAM')")
+# multiset congruence of map / flat-map (the multiset of the result depends only on the multiset of the input)
+ufunc("MAPMS", ["U", "MS"], "MS")     # multiset image under a function
+ufunc("FLATMS", ["MS"], "MS")         # multiset union of the contents of a multiset of iterables
+ufunc("WITM", ["U", "U", "MS"], "U")
+axiom("forall(lambda f, s: MSS(MAPS(f, s)) == MAPMS(f, MSS(s)), f='U', s='STREAM')")
+axiom("forall(lambda s: MSS(FLATS(s)) == FLATMS(MSS(s)), s='STREAM')")
+axiom("forall(lambda f, g, m: MAPMS(f, m) == MAPMS(g, m) or APP(f, WITM(f, g, m)) != APP(g, WITM(f, g, m)), f='U', g='U', m='MS')")
+# failures propagate through every stage (C07)
+axiom("forall(lambda f, s: implies(FAILS(s), FAILS(MAPS(f, s))), f='U', s='STREAM')")
+axiom("forall(lambda s: implies(FAILS(s), FAILS(FLATS(s))), s='STREAM')")
+axiom("forall(lambda s, n: implies(FAILS(s), FAILS(SHUF(s, n))), s='STREAM')")
+axiom("forall(lambda s, n: implies(FAILS(s), FAILS(RRS(s, n))), s='STREAM')")
+axiom("forall(lambda f, s, n: implies(FAILS(s), FAILS(LAZYS(f, s, n))), f='U', s='STREAM')")
+# order: map over a finite, non-failing stream is the map of its sequence
+axiom("forall(lambda f, s: implies(FIN(s) and not FAILS(MAPS(f, s)), SEQOF(MAPS(f, s)) == MAPQ(f, SEQOF(s))), f='U', s='STREAM')")
+ufunc("WITS", ["U", "U", "STREAM"], "U")
+axiom("forall(lambda f, g, s: MAPS(f, s) == MAPS(g, s) or APP(f, WITS(f, g, s)) != APP(g, WITS(f, g, s)), f='U', g='U', s='STREAM')")
